@@ -51,6 +51,41 @@ GLOBAL_TRUSTED = [
 ]
 
 
+import contextlib
+
+
+@contextlib.contextmanager
+def debug_logging(on):
+    """ENVIRONMENT: the application runs with DEBUG logging switched on (log lines of the library, some guarded by
+    isEnabledFor, are built and formatted); records go to a handler that formats them like a real one and swallows what
+    a real one swallows.  No property statement depends on the log level, so a case judged under DEBUG is an ordinary case."""
+    import logging
+    if not on:
+        yield
+        return
+
+    class Sink(logging.Handler):
+        def emit(self, record):
+            try:
+                record.getMessage()
+            except Exception:          # noqa - logging.Handler.handleError territory, never the caller's problem
+                pass
+    lg = logging.getLogger('ndn')
+    old = (lg.level, lg.propagate, logging.root.manager.disable)
+    h = Sink()
+    lg.addHandler(h)
+    lg.setLevel(logging.DEBUG)
+    lg.propagate = False
+    logging.disable(logging.NOTSET)
+    try:
+        yield
+    finally:
+        lg.removeHandler(h)
+        lg.setLevel(old[0])
+        lg.propagate = old[1]
+        logging.disable(old[2])
+
+
 def setup_repo_path():
     import logging
     logging.disable(logging.CRITICAL)
@@ -391,11 +426,20 @@ def _check(prop, tier, replay):
         runs_before[i] = _seen_case[k]
         _seen_case[k] += 1
 
+    # every 3rd case runs with the library's DEBUG logging on (a replay records it)
+    replay_dbg = bool(json.load(open(replay)).get('debug_logging')) if replay else None
+
+    def dbg_of(i):
+        if os.environ.get('VERIF_NO_DEBUGLOG'):
+            return False
+        return replay_dbg if replay_dbg is not None else (i % 3 == 2)
+
     impls, lines, idx = [], [], []
     harness_exc = []          # exceptions inside the plugin on single cases: they must not mask violations elsewhere
     for i, c in enumerate(cases):
         try:
-            impl = P.run_impl(c)
+            with debug_logging(dbg_of(i)):
+                impl = P.run_impl(c)
         except Exception as e:      # noqa
             harness_exc.append((i, 'run_impl', traceback.format_exc()[-1500:]))
             impl = None
@@ -429,7 +473,7 @@ def _check(prop, tier, replay):
             harness_exc.append((i, 'oracle', traceback.format_exc()[-1500:]))
             continue
         if why:
-            failures.append(('impl-violates-property', c, impl, why, answers.get(i), runs_before.get(i, 0)))
+            failures.append(('impl-violates-property', c, impl, why, answers.get(i), runs_before.get(i, 0), dbg_of(i)))
             continue
         if i in answers:
             compared += 1
@@ -440,12 +484,15 @@ def _check(prop, tier, replay):
             io = P.impl_obs(impl)
             if mo != io:
                 failures.append(('model-impl-disagreement', c, impl,
-                                 f'model {jdump(mo)[:300]} != impl {jdump(io)[:300]}', answers[i], runs_before.get(i, 0)))
+                                 f'model {jdump(mo)[:300]} != impl {jdump(io)[:300]}', answers[i], runs_before.get(i, 0), dbg_of(i)))
 
     # ---------- 4. shrink, classify, verdict ---------------------------------------------------
+    cur_dbg = [False]
+
     def still_fails(kind, c):
         try:
-            impl = P.run_impl(c)
+            with debug_logging(cur_dbg[0]):
+                impl = P.run_impl(c)
             if kind == 'impl-violates-property':
                 w = P.oracle(c, impl)
                 return (impl, w) if w else None
@@ -482,7 +529,8 @@ def _check(prop, tier, replay):
     # impl violations first: they carry a failing input
     failures.sort(key=lambda f: 0 if f[0] == 'impl-violates-property' else 1)
     processed = 0
-    for n, (kind, c, impl, why, ans, nbefore) in enumerate(failures):
+    for n, (kind, c, impl, why, ans, nbefore, dbg) in enumerate(failures):
+        cur_dbg[0] = dbg
         # every failure is looked at (a listed known finding that fails on thousands of cases must not crowd out a
         # different violation further down the stream); only the first of each key is shrunk and reported, and at most
         # 200 distinct ones are processed
@@ -506,7 +554,7 @@ def _check(prop, tier, replay):
                 continue
         path = os.path.join('replays', prop, f'{seed}-{len(violations)}.json')
         json.dump({'property': prop, 'kind': kind, 'why': why, 'case': c, 'impl_output': impl, 'finding_key': key,
-                   'model_answer': ans, 'seed': seed, 'tier': tier, 'repo_head': repo_head(), 'runs_before': nbefore,
+                   'model_answer': ans, 'seed': seed, 'tier': tier, 'repo_head': repo_head(), 'runs_before': nbefore, 'debug_logging': dbg,
                    'how_to_replay': f'/venv/bin/python harness/check.py {prop} --replay {path}'},
                   open(os.path.join(ROOT, path), 'w'), indent=1, default=str)
         violations.append((kind, path, why, key))
